@@ -18,6 +18,7 @@ XLT = 'pkg:xlfunctions.func_xltypes:'
 
 class _Values(PyModel):
     """DataFrame.values of a range array: .flat in row-major order, iteration by rows."""
+    _copy_fields = ('rows', 'flat')
 
     def __init__(self, rows):
         self.rows = rows
@@ -201,6 +202,15 @@ class Workbook:
         out = self._run(self.ctx.mod('evaluator'), {'e': self.evaluator(key), 'a': addr, 'v': value}, 'return e.set_cell_value(a, v)')
         if out.end != 'return':
             raise Unmodelled(f'set_cell_value({addr!r}) ends in {out.end} {out.value!r}')
+
+    def extracted(self, focus):
+        """A workbook over ModelCompiler.extract(model, focus) (interpreted as written), in the same world."""
+        out = self._run(self.ctx.mod('model'), {'m': self.model, 'f': list(focus)}, 'return ModelCompiler.extract(m, f)')
+        if out.end != 'return' or not isinstance(out.value, Rec):
+            raise Unmodelled(f'ModelCompiler.extract ends in {out.end} {out.value!r}')
+        twin = Workbook.__new__(Workbook)
+        twin.ctx, twin.world, twin.models, twin.model, twin.evaluators = self.ctx, self.world, self.models, out.value, {}
+        return twin
 
     def set_model(self, addr, value):
         out = self._run(self.ctx.mod('model'), {'m': self.model, 'a': addr, 'v': value}, 'return m.set_cell_value(a, v)')
